@@ -41,6 +41,23 @@ theorem evalNode_compat (k : NodeKind) (w : Nat) {ins ins' : Ins} (h : InsCompat
     compat (evalNode k w ins) (evalNode k w ins') :=
   Gatery.Nodes.evalNode_compat k w h
 
+/-- **The tristate / bidirectional pin is monotone** (`Node_Pin.cpp:152-183`; inputs `[data, outputEnable, pad]`, the pad being
+    what the test bench drives): an undefined output enable makes the read-back undefined, whatever the VALUE plane of the
+    enable holds; a defined enable selects the driven data or the pad value.  `NetKind.tristate` puts it into the netlists
+    of `evalNet_mono` / `defined_never_wrong` below. -/
+theorem evalTristate_mono (w : Nat) {ins ins' : Ins} (h : InsLe ins ins') :
+    evalTristate w ins ⊑ evalTristate w ins' :=
+  Gatery.Nodes.evalTristate_mono w h
+
+/-- … in particular: with an undefined enable no bit of the read-back is reported as defined, for any data and pad value -/
+theorem evalTristate_undefined_enable (w : Nat) (data pad : Option BV4) :
+    evalTristate w [data, some [.x], pad] = undef w := rfl
+
+/-- the two completions of the seeded case C08-6 (data 1, pad 0, enable undefined) disagree, so `x` is the only sound answer -/
+example : evalTristate 1 [some [.t], some [.x], some [.f]] = [.x] ∧
+    evalTristate 1 [some [.t], some [.t], some [.f]] = [.t] ∧
+    evalTristate 1 [some [.t], some [.f], some [.f]] = [.f] := by decide
+
 /-- **Every combinational netlist is monotone** (nodes in evaluation order, each reading earlier nodes only; induction over
     the netlist): refining the stimulus refines the value of every node. -/
 theorem evalNet_mono (net : List NetNode) {env env' : Env} (he : EnvLe env env') :
@@ -167,6 +184,14 @@ example : (evalNet [[.x, .t], [.f, .f]] demoNet).getD 2 none = some [.f, .f] := 
 example : (evalNet [[.x, .t], [.f, .f]] demoNet).getD 3 none = some [.x, .x] := by decide
 example : (evalNet [[.x, .f], [.f, .f]] demoNet).getD 3 none = some [.f, .f] := by decide
 example : (evalNet [[.t, .t], [.f, .f]] demoNet).getD 3 none = some [.x, .x] := by decide
+/-- a tristate pin inside a netlist: data = input 0, enable = NOT (input 1), pad = input 2 -/
+private def triNet : List NetNode :=
+  [⟨.input 0, 1, []⟩, ⟨.input 1, 1, []⟩, ⟨.node (.logic .NOT) .bool, 1, [some 1]⟩, ⟨.tristate 2, 1, [some 0, some 2]⟩]
+
+example : (evalNet [[.t], [.x], [.f]] triNet).getD 3 none = some [.x] := by decide
+example : (evalNet [[.t], [.f], [.f]] triNet).getD 3 none = some [.t] := by decide
+example : (evalNet [[.t], [.t], [.f]] triNet).getD 3 none = some [.f] := by decide
+
 example : EnvLe [[.x, .t], [.f, .f]] [[.t, .t], [.f, .f]] := by
   refine .cons ⟨rfl, fun i => ?_⟩ (.cons (le_refl _) .nil)
   match i with
